@@ -509,7 +509,7 @@ func (rn *runner) runRound(it *item, rc roundCfg) {
 
 	// solo results (twice, to detect results that are not a function of the input)
 	hclsyntax.VerifAnonSetYield(0)
-	traceSolo := rn.r.Chance(0.25)
+	traceSolo := !raceEnabled && rn.r.Chance(0.25)
 	if traceSolo {
 		hclsyntax.VerifAnonTrace(true)
 	}
@@ -561,7 +561,15 @@ func (rn *runner) runRound(it *item, rc roundCfg) {
 	old := runtime.GOMAXPROCS(rc.procs)
 	defer runtime.GOMAXPROCS(old)
 	hclsyntax.VerifAnonSetYield(rc.yield)
-	hclsyntax.VerifAnonTrace(true)
+	// Under the race detector most rounds run WITHOUT the recorder: its mutex
+	// orders the critical sections of different goroutines (happens-before),
+	// which could hide a race from the detector.
+	traced := !raceEnabled || rn.r.Chance(0.25)
+	if traced {
+		hclsyntax.VerifAnonTrace(true)
+	} else {
+		rep.Hist("race-build:untraced-round")
+	}
 	type diff struct {
 		g, rep, op int
 		got        string
@@ -618,11 +626,13 @@ func (rn *runner) runRound(it *item, rc roundCfg) {
 				Input:  it.input(rc)})
 		}
 	}
-	gids := map[int64]int{}
-	for g, id := range gidOf {
-		gids[id] = g + 1
+	if traced {
+		gids := map[int64]int{}
+		for g, id := range gidOf {
+			gids[id] = g + 1
+		}
+		rn.collect(it, rc, "concurrent", gids, 2)
 	}
-	rn.collect(it, rc, "concurrent", gids, 2)
 }
 
 func trunc(s string, n int) string {
